@@ -58,7 +58,8 @@ PROPS = {
         "assumptions": ["OS-level atomicity / durability of rename and the effect of SIGKILL in the middle of a write to the TEMP file are outside the model (partial)", "library temp names (10 random digits) are assumed not to collide with tree files"],
     },
     "C14": {
-        "runs": [{"profile": "c14", "n_quick": 1500, "n_thorough": 30000, "nontrivial": "include", "oracle": "c14"}],
+        "runs": [{"profile": "c14", "n_quick": 1500, "n_thorough": 30000, "nontrivial": "include", "oracle": "c14"},
+                 {"profile": "climulti", "kind": "cli", "n_quick": 25, "n_thorough": 400, "nontrivial": "any"}],
         "observable": "every record of parse_file with its file, line and chain of include sites (Display of Location), marker sequence | err kind + located chain; then the call trace of Runner::run_file on the tree (execution order)",
         "explanation": "random trees on disk: up to 5 first-level and 3 second-level directories whose names make string order differ from path order (a, a-b, a.b, A), 6 file names, several includes per file, patterns literal / *.s* / x? / */x.slt / ./a/../a/x.slt / ../../shared/..., ~40% patterns matching nothing, parse errors inside included files, missing root, halt",
         "trusted": ["glob crate beyond the modelled subset (literal, *, ? per component); patterns that match directories or non-UTF-8 files and include cycles crash the real parser and are outside the property (DESIGN section 8)"],
@@ -131,7 +132,8 @@ PROPS = {
     "C12": {
         "runs": [{"profile": "c12", "n_quick": 6000, "n_thorough": 120000},
                  {"profile": "climulti", "kind": "cli", "n_quick": 25, "n_thorough": 400, "nontrivial": "any"},
-                 {"profile": "c02", "n_quick": 3000, "n_thorough": 60000}],
+                 {"profile": "c02", "n_quick": 3000, "n_thorough": 60000},
+                 {"profile": "cli17", "kind": "cli", "n_quick": 10, "n_thorough": 100, "nontrivial": "any"}],
         "observable": "MakeConnection invocations in order, session id per call (the mock answers every query with [session id, earlier calls on that session]), per-session order, multiset of sessions shut down",
         "explanation": "random scripts over connection names {default,a,A,b,c1} incl. repeated connection lines, interleaved with comments / system / guards / failing records, failing connection attempts",
     },
